@@ -599,7 +599,8 @@ func runC08(r *rt.Run, tier string) {
 				q := control.Paragraph{Values: map[string]string{}}
 				for _, f := range fs {
 					if t.Bool(1, 3, "c08.set-twice") {
-						q.Set(f.Name, "provisional value")
+						// a placeholder first - empty, or some text - and the real value later
+						q.Set(f.Name, []string{"provisional value", ""}[t.Draw(2, "c08.set-placeholder")])
 					}
 				}
 				for _, f := range fs {
